@@ -55,6 +55,9 @@ pub struct SubSpec {
 pub struct ProgSpec {
     pub externs: Vec<ExtSpec>,
     pub subs: Vec<SubSpec>,
+    /// The first call of every later function carries the address of the first call of the first function (own TID):
+    /// the shape that block duplication produces for a block shared between functions (copies keep the addresses).
+    pub same_call_address: bool,
 }
 
 /// Generator profile.
@@ -77,6 +80,8 @@ pub struct Profile<'a> {
     pub p_dup: u16,
     /// probability (of 256) that a call to an extern or internal function is a conditional call `[CBranch, Call]`
     pub p_cond_call: u16,
+    /// a quarter of the programs get call sites with equal addresses (see `ProgSpec::same_call_address`)
+    pub same_call_address: bool,
 }
 
 fn weighted(t: &mut Tape, w: &[u32]) -> usize {
@@ -167,7 +172,9 @@ pub fn decode_prog(t: &mut Tape, p: &Profile) -> ProgSpec {
         }
         subs.push(SubSpec { name, blocks });
     }
-    ProgSpec { externs, subs }
+    // derived from the decoded program, not from the tape: the decoding of everything else is unchanged
+    let same_call_address = p.same_call_address && crate::tape::fnv(format!("{:?}", subs).as_bytes()) % 4 == 0;
+    ProgSpec { externs, subs, same_call_address }
 }
 
 pub fn sub_addr(s: usize) -> u64 {
@@ -229,6 +236,16 @@ pub fn build(spec: &ProgSpec) -> Project {
             blocks.push(blk);
         }
         subs.push(irb::sub(irb::sub_tid(sub_addr(s)), &ss.name, blocks));
+    }
+    if spec.same_call_address {
+        let first = subs.first().and_then(|s0: &Term<Sub>| s0.term.blocks.iter().flat_map(|b| b.term.jmps.iter()).find(|j| matches!(j.term, Jmp::Call { .. })).map(|j| j.tid.address.clone()));
+        if let Some(addr) = first {
+            for s in subs.iter_mut().skip(1) {
+                if let Some(j) = s.term.blocks.iter_mut().flat_map(|b| b.term.jmps.iter_mut()).find(|j| matches!(j.term, Jmp::Call { .. })) {
+                    j.tid.address = addr.clone();
+                }
+            }
+        }
     }
     let externs: Vec<ExternSymbol> = spec.externs.iter().enumerate().map(|(k, e)| irb::extern_symbol(ext_tid(k), &e.name, &["RDI"], e.no_return)).collect();
     irb::project(subs, externs, vec![irb::sub_tid(sub_addr(0))])
